@@ -1,10 +1,10 @@
 CONSTANTS
   Dev = {"D_ttl0_node_panic"}
   Budget = 1
-  Shapes = {"secure3", "insecure3", "secure4", "insecure4"}
-  Denials = {"nsec", "nsec3", "optout"}
+  Shapes = {"secure3", "insecure3"}
+  Denials = {"nsec", "nsec3"}
   QKinds = {"positive", "wildcard", "nodata", "nxdomain", "cname1", "cname2", "ds", "dname", "dnamex"}
-  AdvActs = {"DropRrsig", "DropRrset", "ReplaceRdata", "WrongSigner", "Expire", "NotYetValid", "ForgeSigned", "AddBadSig", "CorruptKey", "CorruptDs", "StripProof", "ForgeNsecRange", "SwapProof", "BadNsec3Label", "BadNsec3LabelSigned", "ZeroCounts", "ZeroTtl", "Inject", "CnameLoop"}
+  AdvActs = {"DropRrsig", "DropRrset", "ReplaceRdata", "WrongSigner", "Expire", "NotYetValid", "ReplayAncestor", "ForgeSigned", "AddBadSig", "CorruptKey", "CorruptDs", "StripProof", "ForgeNsecRange", "SwapProof", "BadNsec3Label", "BadNsec3LabelSigned", "ZeroCounts", "ZeroTtl", "Inject", "CnameLoop"}
 SPECIFICATION Spec
 VIEW View
 
